@@ -276,6 +276,10 @@ class Interp:
             return r.value
         finally:
             self.call_depth -= 1
+            if getattr(f, "top_level", False):
+                # ghost: the locals of the function under verification at its exit, so that a postcondition of the
+                # form "there is a column c such that ..." can name its witness (read-only, contract side)
+                st.ghost["exit_locals"] = dict(frame.locals)
         return None
 
     @staticmethod
@@ -1600,7 +1604,7 @@ class Interp:
         elements satisfying the predicate, in order. Assumes pred is pure."""
         g = e.generators[0]
         if not (isinstance(e.elt, ast.Name) and isinstance(g.target, ast.Name) and e.elt.id == g.target.id):
-            raise Unsupported("filter comprehension whose element is not the loop variable")
+            return self._sym_filter_sum(st, e, fr, seq)
         n = Q.seq_len(seq)
         base = Q.to_sseq(seq)
 
@@ -1625,6 +1629,55 @@ class Interp:
         st.assume(V.forall(0, n, lambda i: V.implies(pred(base.get(i)), both(zp(i) >= 0, zp(i) < m, zi(zp(i)) == i))))
         r = SSeq(m, lambda j: base.get(zi(j)), base.shape, None, "filter")
         r.filter_of = (base, zi, zp, pred)
+        return r
+
+    def _sym_filter_sum(self, st, e, fr, seq):
+        """`(elt(x) for x in seq if cond(x))` over a sequence of symbolic length, usable only as the argument
+        of sum(): the sum is G(len(seq)) for a fresh prefix-sum function G defined by
+            G(0) = 0,   G(k+1) = G(k) + (elt(seq[k]) if cond(seq[k]) else 0)
+        (CPython: sum() of the filtered generator, integers).  The defining equations are instantiated by
+        `unfold(k)`; the record (G, n, term) is appended to st.ghost["gen_sums"] so that a contract can relate G
+        to a spec function (pointwise-equal summands, lemma `pointwise-equal-prefix-sums`).  Assumes elt and cond
+        are pure and cannot raise.  Reading an element of the generator is Unsupported."""
+        g = e.generators[0]
+        n = Q.seq_len(seq)
+        base = Q.to_sseq(seq)
+        G = z3.Function(st.fresh_name("gensum"), z3.IntSort(), z3.IntSort())
+
+        def term(k):
+            cfr = Frame(fr.fn, fr.mod, parent=fr)
+            cfr.self_obj = fr.self_obj
+            self.assign_target(V.cur(), g.target, base.get(k), cfr)
+            c = True
+            for cnd in g.ifs:
+                v = self.eval(V.cur(), cnd, cfr)
+                c = both(c, v if isinstance(v, (bool, SBool)) else self.truth(V.cur(), v))
+            v = self.eval(V.cur(), e.elt, cfr)
+            if not V.is_num(v) or isinstance(v, SBool):
+                raise Unsupported("sum of a filtered generator over non-integer elements")
+            return V.ite(c, v, 0)
+
+        def unfold(k):
+            s_ = V.cur()
+            zk = V._z(k)
+            s_.assume(G(z3.IntVal(0)) == 0)
+            s_.assume(z3.Implies(z3.And(zk >= 0, zk < V._z(n)), G(zk + 1) == G(zk) + V._z(term(k))))
+
+        def getter(i):
+            raise Unsupported("element of a filtered generator over a sequence of symbolic length (only sum() is modelled)")
+
+        r = SSeq(st.fresh_int("flen"), getter, None, lambda k: mk_int(G(V._z(n))), "filtersum")
+        r.sum = lambda: mk_int(G(V._z(n)))
+        st.assume(G(z3.IntVal(0)) == 0)
+        bound = getattr(seq.seq if isinstance(seq, LRef) else seq, "max_len", None)
+        if not isinstance(bound, int) and st.capture is None and not isinstance(n, int):
+            r0, _m = st._check(V._z(n) > 8, 500)
+            bound = 8 if r0 == z3.unsat else None
+        if isinstance(bound, int) and bound <= 64:
+            for j in range(bound):  # the length is symbolic but bounded by a small constant: unfold G completely
+                unfold(j)
+        rec = View({"G": lambda k: mk_int(G(V._z(k))), "n": n, "term": term, "unfold": unfold, "node": e})
+        st.ghost.setdefault("gen_sums", []).append(rec)
         return r
 
     def e_ListComp(self, st, e, fr):
@@ -1674,6 +1727,9 @@ class Interp:
                 if not isinstance(n, int):
                     if len(e.args) == 1 and not e.keywords:
                         args.append(StarArgs(v))  # f(*seq) with a sequence of symbolic length: opaque callees only
+                        continue
+                    if fn in (max, min) and not e.keywords and a is e.args[-1] and not any(isinstance(x, ast.Starred) for x in e.args[:-1]):
+                        args.append(StarArgs(v))  # max(a, b, *seq) / min(...): modelled in builtins_model._extremum_star
                         continue
                     raise Unsupported("*args of symbolic length")
                 args.extend(Q.seq_get(v, i) for i in range(n))
